@@ -158,6 +158,35 @@ func c07Tight(args []string) error {
 			emit(hierObs{Ev: "hier", Name: sh.n, Dim: 3, Cells: cells, N: len(as[i]), NFlat: len(b), Diff: triDiff(as[i], b), Seq: i + 1})
 		}
 	}
+	// --- ONE renderer object reused for different shapes that have bit-identical bounding boxes (a block, the
+	// block drilled, the block again): state kept between renders must not leak from one shape into the next
+	{
+		blk, _ := sdf.Box3D(v3.Vec{X: 2, Y: 2, Z: 2}, 0)
+		cyl, _ := sdf.Cylinder3D(3, 0.45, 0)
+		drilled := sdf.Difference3D(blk, cyl)
+		r3 := render.NewMarchingCubesOctree(24)
+		for i, sh := range []sdf.SDF3{blk, drilled, blk, drilled} {
+			a := render.ToTriangles(sh, r3)
+			b := render.ToTriangles(scaled3{sh, 1024}, render.NewMarchingCubesOctree(24))
+			emit(hierObs{Ev: "hier", Name: "reuse-block", Dim: 3, Cells: 24, N: len(a), NFlat: len(b), Diff: triDiff(a, b), Seq: i + 1})
+		}
+		sq := sdf.Box2D(v2.Vec{X: 2, Y: 2}, 0)
+		hole, _ := sdf.Circle2D(0.45)
+		sq2 := sdf.Difference2D(sq, hole)
+		r2 := render.NewMarchingSquaresQuadtree(96)
+		for i, sh := range []sdf.SDF2{sq, sq2, sq, sq2} {
+			a := collectLines(sh, r2)
+			b := collectLines(scaled2{sh, 1024}, render.NewMarchingSquaresQuadtree(96))
+			emit(hierObs{Ev: "hier", Name: "reuse-square", Dim: 2, Cells: 96, N: len(a), NFlat: len(b), Diff: lineDiff(a, b), Seq: i + 1})
+		}
+	}
+	// --- cell counts at and just below powers of two (the root square / cube must still cover the 1 % margin)
+	for _, cells := range []int{32, 64, 127, 128} {
+		emit(hier2("pow2-circle", fmtf(float64(cells)), ci, cells, 0))
+		if cells <= 64 {
+			emit(hier3("pow2-sphere", fmtf(float64(cells)), sp, cells, 0))
+		}
+	}
 	var ls [][]*sdf.Line2
 	for _, cells := range seq {
 		ls = append(ls, collectLines(ci, render.NewMarchingSquaresQuadtree(cells*4)))
